@@ -80,6 +80,17 @@ def build_pool(d):
             dd["path"] = p2
             dd["damaged"] = True
             pool.append(dd)
+    # an inode table of more than 64 KiB on disk: inode references of the directories need more than 32 bits
+    src2 = os.path.join(d, "src2")
+    os.makedirs(os.path.join(src2, "deep", "er"))
+    for i in range(240):
+        os.symlink("".join(rnd.choice("abcdefghijklmnopqrstuvwxyz0123456789") for _ in range(1000)), os.path.join(src2, "l%03d" % i))
+    with open(os.path.join(src2, "deep", "er", "f"), "wb") as fh:
+        fh.write(b"file behind many inodes")
+    p = os.path.join(d, "tool_bigino.sqfs")
+    r = vcommon.run([vcommon.tool("plain", "gensquashfs"), "--pack-dir", src2, "-c", "gzip", "-b", "4096", "-q", p], timeout=120)
+    if r.rc == 0:
+        pool.append(describe(p, damaged=False))
     for dc in (False, True):
         img, lay = sqfswrite.build(sqfswrite.simple_tree(), data_comp=dc, pad=4096)
         p = os.path.join(d, "py_%d.sqfs" % dc)
@@ -120,7 +131,7 @@ def describe(path, damaged):
 
 @st.composite
 def cases(draw, tier="quick"):
-    npool = 29
+    npool = 30
     pi = draw(st.integers(0, npool - 1))
     nops = draw(st.integers(3, 40))
     ops = []
